@@ -112,7 +112,7 @@ def legR_resolution_case(rec):
     rbs = '[' + '; '.join(coq_rb(r, o, f) for r, o, f in zip(rec['table'], rec['owners'], rec['finals'])) + ']'
     par = '[' + '; '.join('(%d%%N, %d%%N)' % p for p in rec['parents']) + ']'
     refs = '[' + '; '.join('(%d%%N, %d%%N)' % p for p in rec['refs']) + ']'
-    return 'resolution_check %s %s %s' % (par, rbs, refs)
+    return 'resolution_check %s %s %s && rscope_check %s %s %s' % (par, rbs, refs, par, rbs, refs)
 
 
 def legR_case(rec):
@@ -183,6 +183,164 @@ def alpha(src, out):
     except pyscope.Mismatch as m:
         return (m.kind, m.detail)
     return None
+
+
+
+# ------------------------------------------------------------------------------------------------ leg A: the analysis itself
+def capture_analysis(source):
+    """run minify (every transform off) with python_minifier.resolve_names wrapped: the namespace tree as the real
+    add_namespace / bind_names / resolve_names left it: frames (kind, bindings, global_names, nonlocal_names), parents,
+    and for every reference node of every binding (name, namespace it is written in, namespace that owns the binding)"""
+    import python_minifier
+    from python_minifier.rename.renamer import all_bindings
+    from python_minifier.rename.util import is_namespace
+    rec = {}
+    real = python_minifier.resolve_names
+
+    def wrapper(module):
+        r = real(module)
+        nss = []
+
+        def walk(n):
+            if is_namespace(n):
+                nss.append(n)
+            for c in ast.iter_child_nodes(n):
+                walk(c)
+        walk(module)
+        idx = {id(n): i for i, n in enumerate(nss)}
+        rec['keys'] = [(type(n).__name__, getattr(n, 'lineno', 0), getattr(n, 'col_offset', 0)) for n in nss]
+        rec['frames'] = [{'kind': 'KModule' if isinstance(n, ast.Module) else 'KClass' if isinstance(n, ast.ClassDef) else 'KFunction',
+                          'bindings': sorted({b.name for b in n.bindings if isinstance(b.name, str)}), 'globals': sorted(n.global_names), 'nonlocals': sorted(n.nonlocal_names)} for n in nss]
+        rec['parent'] = [None if n.namespace is n else idx.get(id(n.namespace)) for n in nss]
+        refs = []
+        for namespace, b in all_bindings(module):
+            if not isinstance(b.name, str):
+                continue
+            for node in b.references:
+                ns = getattr(node, 'namespace', None)
+                if ns is None or id(ns) not in idx:
+                    continue
+                if isinstance(node, ast.Name) and node.id != b.name:
+                    continue
+                refs.append((b.name, idx[id(ns)], idx[id(namespace)], type(node).__name__, (getattr(node, 'lineno', None), getattr(node, 'col_offset', None))))
+        rec['refs'] = refs
+        return r
+    python_minifier.resolve_names = wrapper
+    try:
+        with warnings.catch_warnings():
+            warnings.simplefilter('ignore')
+            python_minifier.minify(source, rename_locals=False, rename_globals=False, hoist_literals=False, **RENAME_OPTS)
+    finally:
+        python_minifier.resolve_names = real
+    return rec
+
+
+def coq_names(names):
+    return '[' + '; '.join(coq_text(n) for n in names) + ']'
+
+
+def chain_ids(parent, i):
+    out = []
+    while i is not None:
+        out.append(i)
+        i = parent[i]
+        if len(out) > 200:
+            break
+    return out
+
+
+def legA_case(src):
+    """one Gallina boolean for a program, or None when it is outside the fragment (type parameters, unmatched namespaces)"""
+    tree = ast.parse(src)
+    if any(isinstance(n, (getattr(ast, 'TypeAlias', ()), getattr(ast, 'TypeVar', ()))) for n in ast.walk(tree)) or \
+       any(getattr(n, 'type_params', None) for n in ast.walk(tree)):
+        return None
+    rec = capture_analysis(src)
+    if 'frames' not in rec:
+        return None
+    r = pyscope.Resolver(tree)
+    by_key = {}
+    for sc in r.scopes:
+        n = sc.node
+        by_key[(type(n).__name__, getattr(n, 'lineno', 0), getattr(n, 'col_offset', 0))] = sc
+    scs = [by_key.get(k) for k in rec['keys']]
+    if any(s is None for s in scs) or len(scs) != len(r.scopes):
+        return None
+    sid_to_idx = {s.id: i for i, s in enumerate(scs)}
+    depth = [len(chain_ids(rec['parent'], i)) - 1 for i in range(len(scs))]
+    F = '[' + '; '.join('{| m_kind := %s; m_bindings := %s; m_globals := %s; m_nonlocals := %s |}' % (f['kind'], coq_names(f['bindings']), coq_names(f['globals']), coq_names(f['nonlocals']))
+                        for f in rec['frames']) + ']'
+    kindmap = {'module': 'KModule', 'class': 'KClass'}
+    # module level: names declared global elsewhere are bound there too (the resolver adds them); not compared for the module
+    S = '[' + '; '.join('{| s_kind := %s; s_bound := %s; s_gdecl := %s; s_ndecl := %s; s_loads := %s |}'
+                        % (kindmap.get(s.kind, 'KFunction'), coq_names(sorted(s.bound)), coq_names(sorted(s.globals)), coq_names(sorted(s.nonlocals)), coq_names(sorted(s.uses | s.aug)))
+                        for s in scs) + ']'
+    refs = '[' + '; '.join('(%s, [%s], %d)' % (coq_text(name), '; '.join(str(j) for j in chain_ids(rec['parent'], ns)), depth[owner]) for name, ns, owner, _k, _pos in rec['refs']) + ']'
+    occs = []
+    for (_n, _f, _i, name, sc, _c), ident in zip(r.occ, r.identities()):
+        if name in ('__class__',):
+            continue
+        i = sid_to_idx[sc.id]
+        d = depth[sid_to_idx[ident[1]]] if ident[0] in ('local', 'class') else 0
+        occs.append('(%s, [%s], %d)' % (coq_text(name), '; '.join(str(j) for j in chain_ids(rec['parent'], i)), d))
+    O = '[' + '; '.join(occs) + ']'
+    # N: every Name node is written in the namespace the reference resolver puts it in, and (outside the designed class-body
+    # merge) the real analysis attached it to a binding owned by the namespace the reference resolver names
+    real_at = {(pos, name): (ns, owner) for name, ns, owner, k, pos in rec['refs'] if k == 'Name'}
+    bad_n = []
+    for (n, _f, _i, name, sc, _c), ident in zip(r.occ, r.identities()):
+        if not isinstance(n, ast.Name) or ((n.lineno, n.col_offset), name) not in real_at:
+            continue
+        ns, owner = real_at[((n.lineno, n.col_offset), name)]
+        if ns != sid_to_idx[sc.id]:
+            bad_n.append((name, n.lineno, 'written in namespace %d, reference resolver says %d' % (ns, sid_to_idx[sc.id])))
+            continue
+        merged = sc.kind == 'class' and name in sc.bound and name in (sc.uses | sc.aug) and name not in sc.globals and name not in sc.nonlocals
+        want = sid_to_idx[ident[1]] if ident[0] in ('local', 'class') else 0
+        if not merged and owner != want:
+            bad_n.append((name, n.lineno, 'owned by namespace %d, reference resolver says %d' % (owner, want)))
+    pre = 'let F := %s in let S := %s in let O := %s in ' % (F, S, O)
+    parts = [pre + 'check_G F %s' % refs, pre + 'check_B F S', pre + 'check_S S O', pre + 'check_T S O']
+    return pre + 'check_G F %s && check_B F S && check_S S O && check_T S O' % refs, len(rec['refs']), len(occs), len(scs), parts, bad_n
+
+
+HEADER_A = ['From PM Require Import Model.Base Model.ScopeBase Gen.ResolveNames Model.Scope Model.ScopeRun.', 'Open Scope bool_scope.']
+
+
+def leg_A(res, sources, tag):
+    """returns (programs, references checked, occurrences checked, namespaces)"""
+    cases, kept, bad_names = [], [], []
+    nrefs = noccs = nns = 0
+    for src in sources:
+        try:
+            c = legA_case(src)
+        except Exception:
+            c = None
+        if c is None:
+            continue
+        cases.append(c[0])
+        kept.append(src)
+        if c[5]:
+            bad_names.append((src, c[5]))
+        nrefs += c[1]
+        noccs += c[2]
+        nns += c[3]
+    if bad_names:
+        res.broken.append(('correspondence', 'leg A [N]: on %d programs a Name node is written in / attached to a different namespace than the reference resolver (cross-checked against symtable) says; first: %r in %r'
+                           % (len(bad_names), bad_names[0][1][:3], bad_names[0][0][:400])))
+    n, failing, raw = common.run_cases(tag, HEADER_A, cases, shard=40)
+    if failing is None:
+        res.broken.append(('correspondence', 'leg A: scope model evaluation failed: ' + raw[-500:]))
+    elif failing:
+        which = ''
+        try:
+            _n, f2, _raw = common.run_cases(tag + 'x', HEADER_A, legA_case(kept[failing[0]])[4], shard=40)
+            which = ' [failing parts: %s]' % ', '.join('GBST'[i] for i in (f2 or []))
+        except Exception:
+            pass
+        res.broken.append(('correspondence', 'leg A%s: on %d of %d programs the model of get_binding run on the real namespaces does not find the namespace the real resolve_names chose (G), '
+                           'or the real bindings/global_names/nonlocal_names are not the view of the block (B), or the reference pass disagrees with the reference resolver (S); first: %r' % (which, len(failing), n, kept[failing[0]][:400])))
+    return n, nrefs, noccs, nns
 
 
 RENAME_OPTS = dict(remove_annotations=False, remove_pass=False, remove_literal_statements=False, combine_imports=False, remove_object_base=False,
